@@ -90,7 +90,7 @@ fn full_in_full(t: &mut Tape, forest: &mut [Node]) {
             // descendants are written with default options by the writer
             if let Some(ch) = n.children_mut() {
                 for c in ch.iter_mut() {
-                    clear_all(c);
+                    clear_all(t, c);
                 }
             }
             return;
@@ -101,11 +101,15 @@ fn full_in_full(t: &mut Tape, forest: &mut [Node]) {
             }
         }
     }
-    fn clear_all(n: &mut Node) {
+    fn clear_all(t: &mut Tape, n: &mut Node) {
         n.enc = Enc::default();
+        // inside a Full item a master may be given as Start / End children of that item instead of as a nested Full
+        if n.is_master() && t.chance(1, 3) {
+            n.enc.flat_in_full = true;
+        }
         if let Some(ch) = n.children_mut() {
             for c in ch.iter_mut() {
-                clear_all(c);
+                clear_all(t, c);
             }
         }
     }
@@ -209,7 +213,7 @@ pub const STAGES: &[Stage] = &[Stage { name: "presentations", f: stage }];
 
 pub fn run(rc: &mut RunCtx) {
     rc.run_pt(STAGES[0], rc.pick(320_000, 1_500_000), (96, 640));
-    for l in ["full_contains_master", "width_not_minimal", "two_or_more_partial_writes", "deprecated_unknown_call"] {
+    for l in ["full_contains_master", "width_not_minimal", "two_or_more_partial_writes", "deprecated_unknown_call", "start_end_pair_inside_full"] {
         rc.require_label("presentations", l, 20_000);
     }
     if !rc.quick() {
